@@ -18,6 +18,9 @@ pub enum WriteStep {
 #[derive(Default)]
 pub struct Wire {
     pub write_calls: Vec<(usize, isize)>, // (offered, accepted or -1 for error)
+    pub continues: Vec<bool>,             // per write call: the buffer starts with what the previous call left unaccepted
+    pub flush_at: Vec<usize>,             // per flush call: how many write calls had been made before it
+    pub rest: Vec<u8>,                    // bytes offered by the last write call and not accepted
     pub accepted: Vec<u8>,
     pub flushes: u32,
     pub reads: u32,
@@ -68,21 +71,30 @@ impl Write for Mock {
     fn write(&mut self, buf: &[u8]) -> std::io::Result<usize> {
         let step = if self.write_script.is_empty() { WriteStep::Accept(usize::MAX) } else { self.write_script.remove(0) };
         let mut w = self.wire.lock().unwrap();
+        let cont = buf.starts_with(&w.rest);
+        w.continues.push(cont);
         match step {
             WriteStep::Error => {
+                w.rest = buf.to_vec();
                 w.write_calls.push((buf.len(), -1));
                 Err(std::io::Error::new(std::io::ErrorKind::BrokenPipe, "scripted write error"))
             }
             WriteStep::Accept(n) => {
                 let k = std::cmp::min(n, buf.len());
                 w.accepted.extend_from_slice(&buf[..k]);
+                w.rest = buf[k..].to_vec();
                 w.write_calls.push((buf.len(), k as isize));
                 Ok(k)
             }
         }
     }
     fn flush(&mut self) -> std::io::Result<()> {
-        self.wire.lock().unwrap().flushes += 1;
+        {
+            let mut w = self.wire.lock().unwrap();
+            w.flushes += 1;
+            let n = w.write_calls.len();
+            w.flush_at.push(n);
+        }
         if self.flush_error {
             return Err(std::io::Error::new(std::io::ErrorKind::BrokenPipe, "scripted flush error"));
         }
@@ -104,6 +116,8 @@ pub struct Ran {
     pub loc: String,
     pub raw: Vec<u8>,
     pub write_calls: Vec<(usize, isize)>,
+    pub continues: Vec<bool>,
+    pub flush_at: Vec<usize>,
     pub flushes: u32,
 }
 
@@ -139,7 +153,7 @@ fn finish(out: Outcome<Result<(), String>>, wire: Arc<Mutex<Wire>>) -> Ran {
         Outcome::Done(Err(e)) => ("err".to_string(), e, String::new()),
         Outcome::Panic { msg, loc } => ("panic".to_string(), msg, short_loc(&loc)),
     };
-    Ran { outcome, msg, loc, raw: w.accepted.clone(), write_calls: w.write_calls.clone(), flushes: w.flushes }
+    Ran { outcome, msg, loc, raw: w.accepted.clone(), write_calls: w.write_calls.clone(), continues: w.continues.clone(), flush_at: w.flush_at.clone(), flushes: w.flushes }
 }
 
 fn find(hay: &[u8], needle: &[u8], from: usize) -> Option<usize> {
